@@ -86,10 +86,23 @@ def histories_for(idx, rng, tier):
 def decide(gd, idx, cls, tier, rng):
     an = analysis.Analysis(gd)
     try:
-        limit = sc.limit_for(an)
+        proper = an.stopping and an.finals_absorbing
+        limit = sc.limit_for(an) if proper else monitors.step_limit(an.n, games.n_transitions(gd), 5)
     except Exception:
-        limit = monitors.step_limit(an.n, games.n_transitions(gd), 100)
+        proper = False
+        limit = monitors.step_limit(an.n, games.n_transitions(gd), 5)
+    if not proper:
+        # outside the stopping games a solve may legitimately never end: one probe decides whether this game is usable here
+        if any(monitors.observed_solve(games.to_solver(gd), p, limit).status == "budget" for p in (True, False)):
+            return sc.skipped(idx, "not a stopping game and a solve does not finish within the small budget")
     hs, exhaustive = histories_for(idx, rng, tier)
+    try:
+        slow = an.stopping and float(max(an.tmax)) > 60
+    except Exception:
+        slow = True
+    if slow and len(hs) > 12:
+        # slowly converging game: a dozen histories instead of all 36 / 252 (each solve costs thousands of sweeps)
+        hs, exhaustive = rng.sample(hs, 12), False
     res = {"idx": idx, "verdict": "held", "stats": {"histories": 0, "solves": 0, "exhaustive_len2_len3_games": int(exhaustive and idx % 10 == 0)},
            "tags": [cls], "key": games.canon_key(gd), "nontrivial": False}
     problems = []
